@@ -7,6 +7,13 @@ import re
 
 HERE = os.path.dirname(os.path.dirname(os.path.abspath(__file__)))
 REMARKS = {
+ 'C09_h2': 'first run: MISSED (every compared tree was freshly built, so table sizes always matched); a quarter of the C09 triples/copies now grow one container by 1..180 fillers and shrink it back before comparing',
+ 'C13_h2': 'first run: MISSED (member names came from a fixed pool of short names); C13 and C12 now add names whose escaped length sits on / next to powers of two (8..300) to the per-document pool',
+ 'C02_h2': 'first run: MISSED (no long runs of bytes that all need escaping); the tree generator now emits strings made only of such bytes, 10..130 long',
+ 'C08_h2': 'first run: MISSED by C08 and C14 (fault enumeration ran under the C locale only and faultdrv did not read the locale ledger); parse workloads under the comma locale (global / per-thread / chunked / verbose) + locale-object ledger per fault point',
+ 'C08_h3': 'first run: MISSED (pointer/patch workloads inserted into small objects only); workloads insert an escaped new member into objects of 0,9..12,21..23,43,44 members through json_pointer_set and a patch add',
+ 'C06_h2': 'first run: MISSED (random churn hits it in <0.2% of histories; exhaustive scope had no three-keys-one-home + neighbour hash); lhenum hash kinds 4/5 (adjacent homes) and adjacent-bucket universes in the churn',
+ 'C01_h2': 'first run: MISSED (fractions were random digits, so never <=15 significant digits after >=23 leading zeros); structured decimals: integer digits x leading fraction zeros x significant digits x exponent form',
  'C05_2': 'first run: missed by C05 (no failing deep copy in the histories), caught by C08; C05 now drives deep copies that must fail and catches it through the ledger',
  'C08_2': 'first run: missed by C08 (set_string workload grew only once), caught by C11; C08 got a "second grow fails" workload',
  'C18_2': 'first run: MISSED (the seed monitor observed each thread\'s second hash; the defect affects only the first); the racing call itself is now the observed hash/insert and the key is looked up again afterwards',
